@@ -46,6 +46,10 @@ type failoverStatus struct {
 	// selection is applied the reported leader is still the current one, and
 	// reports about it must not add up to another failover.
 	electing bool
+	// cancelled is set once the status has been discarded, e.g. because the
+	// leader it collected reports about has been replaced. A report that got
+	// hold of the status before that must not start a failover anymore.
+	cancelled bool
 }
 
 func newFailoverStatus(f failover) *failoverStatus {
@@ -62,8 +66,8 @@ func newFailoverStatus(f failover) *failoverStatus {
 func (f *failoverStatus) report(ctx context.Context, witness string) *status.Status {
 	f.mu.Lock()
 
-	if f.electing {
-		// The reported leader is already being replaced.
+	if f.electing || f.cancelled {
+		// The reported leader is already being replaced or has been replaced.
 		f.mu.Unlock()
 		return nil
 	}
@@ -104,10 +108,12 @@ func (f *failoverStatus) forget(witness string) {
 	f.mu.Unlock()
 }
 
-// cancel stops the expiration timer, if there is one.
+// cancel stops the expiration timer, if there is one, and discards the status:
+// reports made through it from now on are ignored.
 func (f *failoverStatus) cancel() {
 	f.mu.Lock()
 	defer f.mu.Unlock()
+	f.cancelled = true
 	if f.timer != nil {
 		f.timer.Stop()
 	}
